@@ -28,6 +28,21 @@ Proof. reflexivity. Qed.
 Lemma tie_c06_consumer_text : f_c06_consumer_text =
   "{ for msg := range consumer { err := firewall(msg, context) if err != nil { log.Printf("""", context.EndPoint().String(), msg.Header) context.SendError(msg, err) stream.Close() return } err = s.Router.Receive(msg, context) if err != nil { log.Printf("""", msg.Header, err) } } }".
 Proof. reflexivity. Qed.
+(* how a connection starts = conn0 (c_authed := false): the context of server.handle is a fresh channel with
+   the default capability map; it is marked authenticated only on the flag parameter; the accept loop
+   (every listener transport) passes false; the only caller that passes true is Client(), the
+   in-process pipe that never comes from a listener (not a connection of the model) *)
+Lemma tie_c06_handle_start_text : f_c06_handle_start_text =
+  "func(stream net.Stream, authenticated bool) ; context := &channel{ capability: DefaultCap(), } ; if authenticated { context.SetAuthenticated() }".
+Proof. reflexivity. Qed.
+Lemma tie_c06_accept_text : f_c06_accept_text =
+  "func (s *server) run() { for { stream, err := s.listen.Accept() if err != nil { select { case <-s.closeChan: default: s.listen.Close() s.stoppedWith(err) } break } s.handle(stream, false) } }".
+Proof. reflexivity. Qed.
+Lemma tie_c06_handle_callers : f_c06_handle_callers = ["Client:true"; "run:false"].
+Proof. reflexivity. Qed.
+Lemma tie_c06_local_client_text : f_c06_local_client_text =
+  "func (s *server) Client() Client { ctl, srv := gonet.Pipe() s.handle(net.ConnStream(srv), true) return NewClient(NewChannel(net.ConnEndPoint(ctl), DefaultCap())) }".
+Proof. reflexivity. Qed.
 (* firewall: not authenticated and service <> 0 *)
 Lemma tie_c06_firewall_text : f_c06_firewall_text =
   "func firewall(m *net.Message, from Channel) error { if from.Authenticated() == false && m.Header.Service != 0 { return ErrNotAuthenticated } return nil }".
